@@ -5,6 +5,8 @@ import os
 import time
 
 VERIF = os.path.dirname(os.path.dirname(os.path.abspath(__file__)))
+# self-tests on scratch copies write their evidence elsewhere, never over the real files
+EVIDENCE = os.environ.get('VERIF_EVIDENCE_DIR') or os.path.join(VERIF, 'evidence')
 
 
 class Report:
@@ -93,8 +95,8 @@ class Report:
             print('KNOWN-FINDING: property=%s %s [%s]' % (self.prop, h['what'], h['key']))
         replay = None
         if violations:
-            os.makedirs(os.path.join(VERIF, 'evidence', 'replay'), exist_ok=True)
-            replay = os.path.join(VERIF, 'evidence', 'replay', '%s.txt' % self.prop)
+            os.makedirs(os.path.join(EVIDENCE, 'replay'), exist_ok=True)
+            replay = os.path.join(EVIDENCE, 'replay', '%s.txt' % self.prop)
             with open(replay, 'w') as fh:
                 for v in violations:
                     fh.write('%s\n    %s\n' % (v['key'], v['detail']))
@@ -158,8 +160,8 @@ class Report:
             'wall_s': round(time.time() - self.t0, 3),
             'violations': len(violations),
         }
-        os.makedirs(os.path.join(VERIF, 'evidence'), exist_ok=True)
-        with open(os.path.join(VERIF, 'evidence', '%s.json' % self.prop), 'w') as fh:
+        os.makedirs(EVIDENCE, exist_ok=True)
+        with open(os.path.join(EVIDENCE, '%s.json' % self.prop), 'w') as fh:
             json.dump(ev, fh, indent=1, sort_keys=False)
             fh.write('\n')
         print('%s %s: %d rule instance(s), %d discharged, %d known finding(s), %d violation(s)'
